@@ -1,5 +1,5 @@
 (* Soundness of the atomicity check of Lib/Atomic.v: when `no_unlock_between m g r w` holds, NO walk of the graph
-   from r to w executes an unlock of m, and a thread that holds m at r still holds it on arrival at w. *)
+   from r to w (that does not come back to r, where the value is read afresh) executes an unlock of m, and a thread that holds m at r still holds it on arrival at w. *)
 From Verif Require Import Lib.Base Lib.Lockset Lib.LocksetX Lib.Atomic.
 From Coq Require Import String.
 Open Scope N_scope.
@@ -20,11 +20,11 @@ Proof.
 Qed.
 
 (* a closed set that contains a state contains the end state of every walk from it *)
-Lemma closed_walk m g R : closed m g R = true ->
-  forall l n st, In (n, st) R -> is_path g n l -> In (walk m g st n l) R.
+Lemma closed_walk m g r R : closed m g r R = true ->
+  forall l n st, In (n, st) R -> is_path g n l -> In (walk_r m g r st n l) R.
 Proof.
   intro Hc. unfold closed in Hc. rewrite forallb_forall in Hc.
-  induction l as [|n' l IH]; intros n st Hin Hp; cbn [walk].
+  induction l as [|n' l IH]; intros n st Hin Hp; cbn [walk_r].
   - exact Hin.
   - cbn [is_path] in Hp. destruct Hp as [[nd [Hnd Hs]] Hp].
     apply IH; [|exact Hp].
@@ -35,15 +35,25 @@ Proof.
     unfold unlocks_at. rewrite Hnd. reflexivity.
 Qed.
 
-(* the check: every walk from r that ends at w has executed no unlock of m *)
+(* a walk that does not come back to r never clears the flag *)
+Lemma walk_r_walk m g r : forall l n st, ~ In r l -> walk_r m g r st n l = walk m g st n l.
+Proof.
+  induction l as [|n' l IH]; intros n st Hr; [reflexivity|].
+  cbn [walk_r walk]. destruct (n' =? r)%nat eqn:E.
+  - apply Nat.eqb_eq in E. subst n'. exfalso. apply Hr. left. reflexivity.
+  - apply IH. intro H. apply Hr. right. exact H.
+Qed.
+
+(* the check: every walk from r that does not come back to r and ends at w has executed no unlock of m *)
 Lemma no_unlock_between_sound m g r w : no_unlock_between m g r w = true ->
-  forall l, is_path g r l -> fst (walk m g false r l) = w -> snd (walk m g false r l) = false.
+  forall l, is_path g r l -> ~ In r l -> fst (walk m g false r l) = w -> snd (walk m g false r l) = false.
 Proof.
   unfold no_unlock_between. intro H.
   apply andb_true_iff in H as [H Hw]. apply andb_true_iff in H as [Hc Hr].
   apply as_mem_in in Hr. apply negb_true_iff in Hw.
-  intros l Hp Hend.
-  pose proof (closed_walk m g _ Hc l r false Hr Hp) as Hin.
+  intros l Hp Hnr Hend.
+  pose proof (closed_walk m g r _ Hc l r false Hr Hp) as Hin.
+  rewrite (walk_r_walk m g r l r false Hnr) in Hin.
   destruct (walk m g false r l) as [n st] eqn:E. cbn in Hend |- *. subst n.
   destruct st; [|reflexivity].
   apply as_mem_in in Hin. rewrite Hin in Hw. discriminate.
@@ -101,13 +111,13 @@ Qed.
 
 (* the two together: the guard held at r is still held on arrival at w, whatever the way *)
 Lemma guard_kept_lemma m g r w : no_unlock_between m g r w = true ->
-  forall l L, is_path g r l -> fst (walk m g false r l) = w ->
+  forall l L, is_path g r l -> ~ In r l -> fst (walk m g false r l) = w ->
     holds m L = true ->
     holds m (locks_along g L r l) = true /\
     (forall x, In x (removelast (r :: l)) -> unlocks_at m g x = false).
 Proof.
-  intros H l L Hp Hend HL.
-  pose proof (no_unlock_between_sound m g r w H l Hp Hend) as Hs.
+  intros H l L Hp Hnr Hend HL.
+  pose proof (no_unlock_between_sound m g r w H l Hp Hnr Hend) as Hs.
   split; [apply holds_along; assumption|].
   apply (walk_false m g l r false Hs).
 Qed.
